@@ -16,6 +16,7 @@ import (
 	"net/textproto"
 	"net/url"
 	"os"
+	"regexp"
 	"strconv"
 	"strings"
 	"sync"
@@ -824,6 +825,50 @@ func onlyUnderTrailerKey(logs map[string]string, tok string) bool {
 	return true
 }
 
+var ipFieldRe = regexp.MustCompile(`"(remote_ip|client_ip)":"([^"]*)"`)
+
+// ipMaskLogOracle: the access log that goes through the filter encoder has ip_mask (/16, /32) on
+// request>remote_ip and request>client_ip: whatever the peer's address looks like (IPv4, IPv6, zoned,
+// IPv4-mapped), the logged value must not contain the address — with or without brackets or zone.
+func ipMaskLogOracle(o *core.Outcome, sc *script, filt string) {
+	if filt == "" {
+		return
+	}
+	a, hostText, ok := lenientIP(sc.remote)
+	if !ok {
+		return
+	}
+	ones := 16
+	if !a.Unmap().Is4() {
+		ones = 32
+	} else {
+		a = a.Unmap()
+	}
+	if !hostBitsNonZero(a, ones) {
+		return
+	}
+	o.Tags = append(o.Tags, "site:ipmask-checked")
+	for _, m := range ipFieldRe.FindAllStringSubmatch(filt, -1) {
+		if !strings.Contains(m[2], jsonInner(hostText)) {
+			continue
+		}
+		host := sc.remote
+		if h, _, err := net.SplitHostPort(sc.remote); err == nil {
+			host = h
+		}
+		host, _, _ = strings.Cut(host, "%")
+		if net.ParseIP(host) == nil {
+			o.Tags = append(o.Tags, "site:remote-unparsable")
+			o.Failures = append(o.Failures, core.Failure{Class: "ipmask-unparsable-passthrough",
+				What: fmt.Sprintf("ip_mask on request>%s left %q unmasked (net.ParseIP rejects it): logged %q", m[1], hostText, m[2])})
+		} else {
+			o.Failures = append(o.Failures, core.Failure{Class: "ipmask-host-bits-visible",
+				What: fmt.Sprintf("ip_mask /%d on request>%s logged the peer address %q in full: %q", ones, m[1], hostText, m[2])})
+		}
+		return
+	}
+}
+
 // siteOracle: the property itself, on the bytes the real loggers wrote.
 func siteOracle(o *core.Outcome, sc *script, obs siteObs) {
 	var toks []string
@@ -851,6 +896,7 @@ func siteOracle(o *core.Outcome, sc *script, obs siteObs) {
 		o.Tags = append(o.Tags, "trivial")
 	}
 	all := obs.logs["json"] + obs.logs["cons"] + obs.logs["filt"]
+	ipMaskLogOracle(o, sc, obs.logs["filt"])
 	if !sc.creds {
 		for _, t := range toks {
 			if !strings.Contains(all, t) {
@@ -927,31 +973,6 @@ func siteOracle(o *core.Outcome, sc *script, obs siteObs) {
 			check(qToks, "query-unparsable-url-passthrough", fmt.Sprintf("query filter on request>uri passes %q through because url.Parse fails (%v)", uri, err))
 		} else {
 			check(qToks, "filterlog-query-visible", "query filter on request>uri")
-		}
-	}
-	if filt != "" {
-		if a, hostText, ok := lenientIP(sc.remote); ok {
-			ones := 16
-			if !a.Unmap().Is4() {
-				ones = 32
-			} else {
-				a = a.Unmap()
-			}
-			shown := `"remote_ip":"` + jsonInner(hostText)
-			if hostBitsNonZero(a, ones) && (strings.Contains(filt, shown+`"`) || strings.Contains(filt, shown+`%`)) {
-				host := sc.remote
-				if h, _, err := net.SplitHostPort(sc.remote); err == nil {
-					host = h
-				}
-				if net.ParseIP(host) == nil {
-					o.Tags = append(o.Tags, "site:remote-unparsable")
-					o.Failures = append(o.Failures, core.Failure{Class: "ipmask-unparsable-passthrough",
-						What: fmt.Sprintf("ip_mask on request>remote_ip left %q unmasked (net.ParseIP rejects it)", hostText)})
-				} else {
-					o.Failures = append(o.Failures, core.Failure{Class: "ipmask-host-bits-visible",
-						What: fmt.Sprintf("ip_mask on request>remote_ip left %q unmasked", hostText)})
-				}
-			}
 		}
 	}
 }
